@@ -4,10 +4,10 @@ from .. import syscorr
 PROP = "C04"
 LEAN_TARGETS = ["Eliot.Properties.C04"]
 AUDIT = "Eliot/Audit/C04.lean"
+SKELETON_TARGETS = {"Sys.C04.skeleton_E6": "Eliot.Properties.C04Skel"}
 THEOREMS = ["Sys.C04.execS_good", "Sys.C04.execB_good", "Sys.C04.exec_restores_ctx", "Sys.C04.program_ends_contextless",
             "Sys.C04.inside_is_current", "Sys.C04.probe_in_body_sees_action", "Sys.C04.start_task_fresh",
             "Sys.C04.contextless_msg_own_task"]
-GENERATED_OBLIGATIONS = ["Sys.C04.skeleton_E6"]
 RULE = ("random programs over the full statement language of the core model (with-blocks, explicit handles with `with x:` / "
         "`x.context()` / `x.run()`, re-entry while inside, tasks, remote continuation, try/except, raises of generated exception "
         "classes incl. BaseException/GeneratorExit/KeyboardInterrupt/CancelledError subclasses, failing destinations/serializers/"
